@@ -4,6 +4,8 @@ import LentilVerif.Gen.Helper
 import LentilVerif.Gen.Helper20
 import LentilVerif.Gen.Hex
 import LentilVerif.Gen.Mesh
+import LentilVerif.Gen.UtilWindow
+import LentilVerif.Gen.UtilCentroid
 /-! Executable model of lentil's array-geometry helpers (`util.pad/subarray/boundary/rebin/centroid`,
 `helper.mesh/boundary_slice/slice_offset`, `shape.circle/rectangle/hexagon`, `segmented.hex_ring/hex_segments`).
 Index arithmetic comes from the generated kernel (`Gen.padIdx2`, `Gen.padIdx3`, `Gen.subarrayIdx`, `Gen.boundarySlice`,
@@ -59,6 +61,36 @@ def subarray (a : Arr K) (h w o0 o1 : Int) : Except String (Arr K) :=
   match Gen.subarrayIdx a.s0 a.s1 h w o0 o1 with
   | .error e => .error e
   | .ok ix => .ok { s0 := ix.2.1 - ix.1, s1 := ix.2.2.2 - ix.2.2.1, get := fun i j => a.get (i + ix.1) (j + ix.2.2.1) }
+
+/-! ## `util.window` -/
+
+/-- Python's `slice(lo, hi).indices(n)` for step 1: a negative bound counts from the end, then both are clamped to `[0, n]` -/
+def sliceBound (n x : Int) : Int :=
+  if x < 0 then (if x + n < 0 then 0 else x + n) else (if n < x then n else x)
+
+/-- NumPy basic slicing `a[r0:r1, c0:c1]` (a view: sample `(i, j)` is the source sample `(start₀ + i, start₁ + j)`) -/
+def viewSlice (a : Arr K) (r0 r1 c0 c1 : Int) : Arr K :=
+  let b0 := sliceBound a.s0 r0; let e0 := sliceBound a.s0 r1
+  let b1 := sliceBound a.s1 c0; let e1 := sliceBound a.s1 c1
+  { s0 := if e0 < b0 then 0 else e0 - b0, s1 := if e1 < b1 then 0 else e1 - b1,
+    get := fun i j => a.get (b0 + i) (b1 + j) }
+
+/-- `util.window(img, shape, slice)` on a 2-D array: the generated decision tree `Gen.windowAct` carried out on the array model
+(`shape`/`slice` = `none` for Python's `None`); `AssertionError` for inconsistent `shape` and `slice` -/
+def window [Zero K] (a : Arr K) (shape : Option (Int × Int)) (slice : Option (Int × Int × Int × Int)) : Except String (Arr K) :=
+  match Gen.windowAct (a.s0 * a.s1) shape.isNone slice.isNone (shape.getD (0, 0)) (slice.getD (0, 0, 0, 0)) with
+  | .whole => .ok a
+  | .view r0 r1 c0 c1 => .ok (viewSlice a r0 r1 c0 c1)
+  | .pad S0 S1 => .ok (pad2 a S0 S1)
+  | .refuse => .error "AssertionError"
+  | .fallthrough => .error "None"
+
+/-- cube branch of the `shape=` path (`lentil.pad` handles the third axis); `size` = depth × rows × columns -/
+def window3Shape [Zero K] (a : Cube K) (S0 S1 : Int) : Except String (Cube K) :=
+  match Gen.windowAct (a.d * a.s0 * a.s1) false true (S0, S1) (0, 0, 0, 0) with
+  | .whole => .ok a
+  | .pad T0 T1 => .ok (pad3 a T0 T1)
+  | _ => .error "unmodelled"
 
 /-! ## `util.boundary`, `helper.boundary_slice`, `helper.slice_offset` -/
 
@@ -129,6 +161,10 @@ def centroidNumK [Add K] [Mul K] [Zero K] [NatCast K] (a : Arr K) : K × K × K 
   (sumRange a.s0.toNat fun i => sumRange a.s1.toNat fun j => ((i : Nat) : K) * a.get i j,
    sumRange a.s0.toNat fun i => sumRange a.s1.toNat fun j => ((j : Nat) : K) * a.get i j,
    a.total)
+
+/-- `util.centroid(img)` itself: the REGENERATED `Gen.centroid` (normalisation by the total, index grids, dot products) on the array model -/
+def centroidRC [Add K] [Mul K] [Div K] [Zero K] [IntCast K] (a : Arr K) : K × K :=
+  Gen.centroid sumRange a.s0.toNat a.s1.toNat fun i j => a.get i j
 
 /-! ## `helper.mesh` and the drawn shapes (`shape.py`) -/
 
